@@ -95,15 +95,16 @@ def game_strategy(draw):
         topo["launcher"]["cap"] = 1
     topo["launcher"]["mechanical"] = topo["launcher"]["cap"] == 1 and draw(st.sampled_from([False, False, True]))
     game = {"balls_per_game": draw(st.integers(1, 3)),
-            "ball_save": draw(st.one_of(st.none(), st.fixed_dictionaries({
-                "active_time": st.sampled_from(["2s", "8s", "30s"]), "auto_launch": st.booleans(),
-                "balls_to_save": st.sampled_from([1, 2, -1]), "eject_delay": st.sampled_from([0, 0, "700ms"]),
-                "use_lock": st.booleans()}))),
+            "ball_save": draw(st.one_of(st.none(), *[st.fixed_dictionaries({
+                "active_time": st.sampled_from(["2s", "8s", "30s", "120s"]), "auto_launch": st.booleans(),
+                "balls_to_save": st.sampled_from([1, 2, -1, -1]), "eject_delay": st.sampled_from([0, "700ms", "3s", "3s"]),
+                "use_lock": st.booleans()})] * 3)),
             "multiball": draw(st.one_of(st.none(), st.fixed_dictionaries({
                 "ball_count": st.integers(2, 3), "ball_count_type": st.sampled_from(["total", "add"]),
                 "shoot_again": st.sampled_from(["0", "5s", "20s"]), "use_lock": st.booleans(),
                 "replace_balls_in_play": st.booleans()})))}
     ops = [st.just(["start"])] * 3 + [st.tuples(st.just("drain"), st.sampled_from([50, 300, 1000, 2500])).map(list)] * 5
+    ops += [st.tuples(st.just("drain2"), st.sampled_from([100, 600, 900, 1500, 2000])).map(list)] * 3
     ops += [st.just(["pf_hit"])] * 2 + [st.just(["settle"]), st.just(["mb_start"]), st.just(["mb_start"]),
                                           st.just(["mb_add"]), st.just(["bs_enable"]), st.just(["early_save"])]
     if topo["lock"]:
@@ -111,8 +112,21 @@ def game_strategy(draw):
     if topo["launcher"]["mechanical"]:
         ops += [st.tuples(st.just("plunge"), st.sampled_from([0, 100, 700]), st.booleans()).map(list)] * 4
     op = st.one_of(*ops)
-    steps = [[["start"], draw(st.sampled_from(GAPS))]] + \
+    # a third of the histories start with a multiball under way (two balls on the playfield is where saves, drains
+    # and ejects overlap); the rest is free
+    prefix = draw(st.sampled_from([[], [], [[["mb_start"], 8.0]], [[["bs_enable"], 0.2], [["mb_start"], 11.0]]]))
+    steps = [[["start"], draw(st.sampled_from([0.5, 2.0, 5.0, 6.5]))]] + prefix + \
         draw(st.lists(st.tuples(op, st.sampled_from(GAPS)).map(list), min_size=2, max_size=30))
+    if draw(st.integers(0, 5)) == 0 and topo["n"] >= 2:
+        # scenario: two saves of an active ball save close together (the multiball's own shoot-again is off so that the
+        # ball save sees the drains)
+        game["ball_save"] = {"active_time": draw(st.sampled_from(["30s", "120s"])), "auto_launch": draw(st.booleans()),
+                             "balls_to_save": draw(st.sampled_from([2, -1])),
+                             "eject_delay": draw(st.sampled_from([0, "700ms", "3s", "3s"])), "use_lock": False}
+        game["multiball"] = {"ball_count": 2, "ball_count_type": "total", "shoot_again": "0", "use_lock": False,
+                             "replace_balls_in_play": False}
+        steps = [[["start"], 5.0], [["mb_start"], draw(st.sampled_from([8.0, 11.0]))],
+                 [["drain2", draw(st.sampled_from([100, 600, 900, 1500, 2000]))], draw(st.sampled_from(GAPS))]] + steps[1:]
     # no harness-made lock claims under a game: a ball held back without telling the game is not something MPF's own
     # lock devices do (they adjust balls_in_play)
     return dict(c, topo=topo, steps=steps, game=game, calm=calm, claims=[])
@@ -578,6 +592,17 @@ def run(case, focus=None):
                   "unexpected_ball_on_playfield", "balldevice_playfield_ball_enter"]
         for evn in names:
             m.events.add_handler(evn, make_handler(evn), priority=1000)
+        if game and game.get("ball_save"):
+            saves = []
+
+            def saving(balls=0, **kwargs):
+                if balls:
+                    saves.append(rig.now)
+                    w.classes.add("ball saved")
+                    if len(saves) > 1 and game["ball_save"]["eject_delay"] and \
+                            saves[-1] - saves[-2] < {"700ms": 0.7, "3s": 3.0}[game["ball_save"]["eject_delay"]]:
+                        w.classes.add("two ball saves within the eject delay")
+            m.events.add_handler("ball_save_bs_saving_ball", saving)
         if "bd_lock" in mdev:
             def claim(unclaimed_balls, **kwargs):
                 if unclaimed_balls and claims and claims.pop(0):
@@ -728,6 +753,13 @@ def run(case, focus=None):
                     w.classes.add("game op " + kind)
             elif kind == "drain":
                 applied = w.drain(op[1])
+            elif kind == "drain2":
+                # two balls drain one after the other, op[1] ms apart
+                applied = w.drain(50)
+                if applied and w.loose > 0:
+                    rig.advance(op[1] / 1000.0)
+                    w.drain(50)
+                    w.classes.add("two drains in close succession")
             elif kind == "lock_shot":
                 applied = w.lock_shot(op[1])
             elif kind == "pf_hit":
